@@ -821,6 +821,18 @@ impl SvgElement {
             }
             _ => {}
         }
+        if self.name == "line" {
+            // a line given by one extent only is horizontal (width) or vertical (height)
+            if width.is_some() && height.is_none() {
+                height = Some(0.);
+            } else if height.is_some() && width.is_none() {
+                width = Some(0.);
+            }
+        } else if self.name == "circle" {
+            // a circle is as high as it is wide: one dimension gives both
+            width = width.or(height);
+            height = height.or(width);
+        }
         if let (Some(width), Some(height)) = (width, height) {
             Ok(Some(Size(width, height)))
         } else {
